@@ -25,13 +25,17 @@ StateViol(r) ==
    IF r.ev = "fill" THEN {} ELSE
    (IF ObsCache(r) # fc' THEN {"C17_CacheContents"} ELSE {})
    \cup (IF r.maxfill > 1 THEN {"C17_OneFillPerGroup"} ELSE {})
-   \* loop goroutines run on their own: while one is about to call Update, or about to exit after Stop,
-   \* the snapshot may already show its next step, so those two sets are compared only in settled states
-   \cup (IF ~LoopPending' /\ SeqToSet(r.inflight) # inflight' THEN {"C17_OneFillPerGroup"} ELSE {})
-   \* (the statement speaks of loops "until stopped": what a RefreshLoop call does on a stopped cache - start a
-   \*  loop that exits at once, or refuse - is left open, so after Stop the loop set is not compared)
-   \cup (IF ~stopped' /\ ~ExitPending' /\ SeqToSet(r.loops) # loops' THEN {"C17_OneLoopPerGroup"} ELSE {})
    \cup (IF r.note # "" THEN {"C17_StepDidNotComplete"} ELSE {})
+
+\* The in-flight SET and the loop SET of the snapshot against the specification's: a set cannot show two of a kind, so
+\* "at most one fill / one loop per group" is not decided here (it is decided by the concurrency counter above, by
+\* what Update and RefreshLoop return, and by the free-running leg) - and WHEN an implementation registers a loop or
+\* clears an in-flight mark is its own business (a loop started from a background goroutine, a fill that tries
+\* twice): differences are reported as drift.  Compared in settled states only (loop goroutines run on their own).
+StateDrift(r) ==
+   IF r.ev = "fill" THEN {} ELSE
+   (IF ~LoopPending' /\ SeqToSet(r.inflight) # inflight' THEN {"inflight"} ELSE {})
+   \cup (IF ~stopped' /\ ~ExitPending' /\ SeqToSet(r.loops) # loops' THEN {"loops"} ELSE {})
 
 EvViol(r) ==
    CASE r.ev = "update" -> IF r.started # last'.started THEN {"C17_OneFillPerGroup"} ELSE {}
@@ -45,7 +49,8 @@ EvViol(r) ==
                               THEN {IF last'.src = "cache" THEN "C17_OnlyWhatWasSaid" ELSE "C17_PartlyCachedAsksDirectory"} ELSE {})
      [] OTHER -> {}
 
-Say(vs) == IF vs = {} THEN lost' = FALSE ELSE PrintT(<<"VIOL", l, vs>>) /\ lost' = TRUE
+Say(vs, dr) == /\ IF dr = {} THEN TRUE ELSE PrintT(<<"DRIFT", l, dr>>)
+               /\ IF vs = {} THEN lost' = FALSE ELSE PrintT(<<"VIOL", l, vs>>) /\ lost' = TRUE
 
 Act(r) ==
    CASE r.ev = "dir" -> DirChange(r.g, [ex |-> r.ex, mem |-> SeqToSet(r.mem)])
@@ -72,7 +77,7 @@ TStep ==
            /\ said' = [g \in Groups |-> {}] /\ last' = [op |-> "init"]
            /\ lost' = FALSE
         ELSE IF lost THEN UNCHANGED <<vars, lost>>
-        ELSE Act(r) /\ Say(EvViol(r) \cup StateViol(r))
+        ELSE Act(r) /\ Say(EvViol(r) \cup StateViol(r), StateDrift(r))
    /\ l' = l + 1
 
 TSpec == TInit /\ [][TStep]_tvars
